@@ -65,7 +65,7 @@ Definition vsock_new (mk_cc : Z -> Z -> CC) (c : vconfig) : option vsock :=
      v_cc := cc_set_remote_window cci (mk_cc now (SegSizes.mss ss)) remote_window;
      v_recovery := recovery_new;
      v_now := now; v_transport_pending := false; v_restart := false; v_unsegmented := 0;
-     v_env_now := now; v_sends := []; v_out := []; v_wakes := []; v_arm_in := None;
+     v_env_now := now; v_sends := []; v_emsg_limit := None; v_out := []; v_wakes := []; v_arm_in := None;
      v_opts := {| o_nagle := vc_nagle c; o_max_retx := vc_max_retx c; o_tx_max := vc_tx_max c;
                   o_inactivity := vc_inactivity c; o_wait_for_last_ack := vc_wait_last_ack c;
                   o_mtu_probe_max_retx := vc_mtu_probe_max_retx c;
@@ -78,6 +78,7 @@ Definition vsock_new (mk_cc : Z -> Z -> CC) (c : vconfig) : option vsock :=
 (* ---- events of the connection-level correspondence ---- *)
 Inductive vop :=
 | VoSetNow (t : Z)
+| VoSetLimit (m : option Z)
 | VoPoll (script : list send_outcome)
 | VoDeliver (m : msg)
 | VoCloseInbox
@@ -109,6 +110,7 @@ Record vobs := { vo_out : vout; vo_disp_woken : bool; vo_self_woken : bool; vo_s
 Definition vstep (s : vsock) (o : vop) : vsock * vout * bool * bool :=
   match o with
   | VoSetNow t => (set_env_now s t, VrNone, false, false)
+  | VoSetLimit m => (set_emsg_limit s m, VrNone, false, false)
   | VoPoll script =>
       let '(s', r) := poll cci (set_sends s script) in
       (s', VrPoll r (rev (v_out s')) (rev (v_wakes s')) (v_arm_in s'), false, false)
